@@ -797,6 +797,9 @@ func judge(w *world, b *vlib.Batch) {
 	b.Count("entries_after_shutdown_returned", int64(afterRet))
 	b.Count("level_flip_actions", w.flipActions.Load())
 	b.Count("twin_blocks", w.twinBlocks.Load())
+	if w.earlyShutdown {
+		b.Count("cases_shutdown_right_after_start", 1)
+	}
 	b.Count("tracer_blocks_with_31_to_500_lines", w.longTraces.Load())
 	b.Count("odd_text_lines", w.oddLines.Load())
 	b.Count("odd_text_submissions", w.oddSubmissions.Load())
